@@ -390,6 +390,22 @@ func checkC10(c *Ctx, r *Report) {
 	// ... of that same command: the message and RMCP layers are rebuilt from the same literals
 	// for every transmission (shared with C03, C06)
 	checkBuildLiterals(c, r)
+	// "it returns the first valid response carrying any other completion code": a command whose
+	// retries ended without one returns an error — nothing after the retry loop turns what the
+	// layers last held (a temporary code, a rejected reply) into a result (shared with C13)
+	checkSuccessNeedsExchange(c, r)
+	{
+		errFns := c.ctxFuncs()
+		for _, rs := range c.RetrySites() {
+			if rs.Op != nil && rs.Op.Parent() != nil {
+				errFns = append(errFns, rs.Op)
+			}
+		}
+		checkErrorsExamined(c, r, "errors-examined", "every context-taking function of the library, and every operation handed to backoff.Retry, returns success only on paths where every error a module call returned was compared with nil", 10, errFns)
+	}
+	// "a reply that cannot be decoded" includes one whose checksums are wrong, whatever its
+	// completion-code byte says (shared with C07)
+	checkMessageChecksums(c, r)
 }
 
 // lateFailure: the path classified the completion code as final and then found a call's error
